@@ -267,6 +267,18 @@ def run_cfg(ctx, cfg):
                             ok = True
                         else:
                             why = "the Break (error) edge of the `?` can reach on_task_result"
+            if not ok and any(isinstance(e, dict) and e.get("as") == "Ok" for e in d.get("proj", [])):
+                # the `?` written out: `match result { Ok(r) => on_task_result(r), Err(v) => return Err(v) }`
+                for c in cs:
+                    if c.kind == "discr" and (c.adt or "").endswith("result::Result") and c.target("Ok") is not None and c.target("Err") is not None \
+                            and q.edge_dominates(enc, c.bb, c.target("Ok"), i):
+                        err_region = enc.reachable([c.target("Err")])
+                        builds_err = any(s_["k"] == "assign" and s_["r"]["k"] == "agg" and s_["r"].get("variant") == "Err"
+                                         for x in err_region for s_ in enc.blocks[x]["stmts"])
+                        if i not in err_region and builds_err and not (set(enc.yields()) & err_region):
+                            ok = True
+                        else:
+                            why = "the Err edge of the match can reach on_task_result, or does not return the error at once"
             ctx.ob("short-circuit" + tag, enc.key, "?-dominates-on_task_result", ok, where_call(enc, i), why if not ok else
                    "on_task_result only runs on the Continue edge of the `?` applied to the task result")
 
